@@ -72,6 +72,15 @@ class SliceRole(AbsInt):
                 return v[1]
         return self.unknown("element")
 
+    def call_method(self, recv, name, node, args, kwargs, ctx):
+        # s.indices(N): the slice is resolved against a length N, exactly like arange(N)[s]
+        if name == "indices" and isinstance(recv, tuple) and recv and recv[0] == "slices" and args:
+            self.records.append((node, ctx.fi, args[0], recv))
+            return ("indices", args[0], recv)
+        if name in ("cpu", "numpy", "copy"):
+            return recv
+        return self.unknown(f".{name}()")
+
     def call_builtin(self, name, node, args, kwargs, ctx):
         if name == "zip":
             return ("zip", tuple(args))
@@ -136,7 +145,7 @@ def slice_role_obligations(idx, rep, rule, functions):
             if not (isinstance(sv, tuple) and sv and sv[0] == "slices"):
                 continue
             n += 1
-            construct = f"{getattr(fi, 'rule', None).role if getattr(fi, 'rule', None) else fi.short}:arange#{n}"
+            construct = f"{getattr(fi, 'rule', None).role if getattr(fi, 'rule', None) else fi.short}:resolve#{n}"
             loc = [idx.loc(f2.module, node)]
             text = ast.unparse(node)
             if isinstance(nv, tuple) and nv and nv[0] == "shape":
